@@ -26,9 +26,10 @@
 EXTENDS Integers, Sequences, FiniteSets, TLC, Json, IOUtils, SequencesExt
 Trace == ndJsonDeserialize(IOEnv.VERIF_TRACE)
 
-CtxLines == {i \in 1..Len(Trace) : Trace[i].ev \in {"ctx.for", "ctx.cancel"}}
-Heights == {Trace[i].h : i \in CtxLines} \cup {1}
-Views   == {Trace[i].v : i \in CtxLines} \cup {0}
+\* (folds, not set comprehensions over the line numbers: thorough traces have millions of lines and TLC refuses sets above 10^6 elements)
+IsCtx(e) == e.ev \in {"ctx.for", "ctx.cancel"}
+Heights == TLCEval(FoldLeft(LAMBDA acc, e : IF IsCtx(e) THEN acc \cup {e.h} ELSE acc, {1}, Trace))
+Views   == TLCEval(FoldLeft(LAMBDA acc, e : IF IsCtx(e) THEN acc \cup {e.v} ELSE acc, {0}, Trace))
 RL == INSTANCE RuntimeLogic
 VC == INSTANCE ViewContexts
 Umb == 1000000009        \* the term-level ("umbrella") context of a height: view 2^64-1 as the harness abstracts it
